@@ -44,13 +44,30 @@ func seqOf(idx bleve.Index) (int, error) {
 
 func TestC13Rollback(t *testing.T) {
 	ev := Ev("C13")
-	ev.SetRule("rapid: scorch disk index with numSnapshotsToKeep in {1,2,3,5}, safe/unsafe batches, drawn persister/merge options, a schedule mode (none / seeded delay plan at the lock-free hook points / rendezvous: persister and merger wait at 1-8 drawn window points - after segment files, inside the in-memory merge, before an introduction, after the bolt commit - until the writer's next batch, 20 ms cap) so that batches land inside persists and merges; history of 4-25 batches each setting internal key seq=i and stamping n=i, interleaved with waits for persistence and forced merges; clean Close. " +
+	ev.SetRule("rapid: scorch disk index with numSnapshotsToKeep in {1,2,3,5}, safe/unsafe batches, drawn persister/merge options, a schedule mode (none / seeded delay plan at the lock-free hook points / rendezvous: persister and merger wait at 1-8 drawn window points - after segment files, inside the in-memory merge, before an introduction, after the bolt commit - until the writer's next batch, 20 ms cap) so that batches land inside persists and merges; history of 4-25 batches each setting internal key seq=i and stamping n=i, (one batch in eight deletes every live document) interleaved with waits for persistence, forced merges and close/reopen; clean Close. " +
 		"Oracle: RollbackPoints is non-empty, epochs strictly descending, every point's seq is a batch number, the first point's seq equals what a plain Open shows, at least min(N, persisted epochs seen) points; for EVERY offered point: copy the directory, Rollback, Open: full state == model(seq), two more batches + reopen work, and no newer epoch is listed after the rollback; " +
 		"non-trivial = >=2 points offered and the target is not the newest; distinct = hash of (config, history, target)")
 	checkPropN(t, "C13", 40, func(t *rapid.T) {
 		cfg := genC03Config(t)
 		cfg.KeepSnapshots = rapid.SampledFrom([]int{1, 2, 3, 5}).Draw(t, "keepN")
 		batches := genC03Workload(t, 4, 25)
+		// some batches delete every live document: the newest segments then drop out of the
+		// newest snapshot while older rollback points still use them
+		{
+			m := NewState()
+			for i := range batches {
+				if i > 0 && rapid.IntRange(0, 7).Draw(t, "deleteAll") == 0 {
+					var ops []Op
+					for _, id := range m.LiveIDs() {
+						ops = append(ops, Op{Kind: OpDelete, ID: id})
+					}
+					if len(ops) > 0 {
+						batches[i] = ops
+					}
+				}
+				m.Apply(batches[i])
+			}
+		}
 		// seeded delays at the lock-free hook points (in particular inside the persister's
 		// in-memory merge) so that batches are introduced while a persist or merge is under way
 		delaySeed := uint64(0)
@@ -87,10 +104,10 @@ func TestC13Rollback(t *testing.T) {
 				}
 			}
 		}
-		merges := 0
+		merges, reopens := 0, 0
 		var hist []string
 		for i, ops := range batches {
-			if err := c03ApplyBatch(idx, i+1, ops, false); err != nil {
+			if err := Guard(fmt.Sprintf("C13 batch %d", i+1), func() error { return c03ApplyBatch(idx, i+1, ops, false) }); err != nil {
 				idx.Close()
 				t.Fatalf("batch %d: %v", i+1, err)
 			}
@@ -113,6 +130,24 @@ func TestC13Rollback(t *testing.T) {
 				merges++
 				hist = append(hist, fmt.Sprintf("batch%d+merge", i+1))
 				sample()
+			case 3:
+				// close and reopen in the middle of the history (segment numbering, retained
+				// snapshots and the files they share live on across the reopen)
+				if err := WaitPersisted(idx, 30*time.Second); err != nil {
+					idx.Close()
+					t.Fatalf("%v", err)
+				}
+				sample()
+				if err := idx.Close(); err != nil {
+					t.Fatalf("close: %v", err)
+				}
+				idx, err = cfg.Reopen(idxDir)
+				if err != nil {
+					t.Fatalf("reopen after batch %d: %v", i+1, err)
+				}
+				s = ScorchOf(idx)
+				reopens++
+				hist = append(hist, fmt.Sprintf("batch%d+reopen", i+1))
 			default:
 				hist = append(hist, fmt.Sprintf("batch%d", i+1))
 			}
@@ -144,6 +179,7 @@ func TestC13Rollback(t *testing.T) {
 		desc := func() string {
 			return fmt.Sprintf("config %s delay seed %d%s history %v", cfg, delaySeed, rvDesc, hist)
 		}
+		ctxDump = desc
 		if len(pts) == 0 {
 			t.Fatalf("no rollback point offered (%s)", desc())
 		}
@@ -186,7 +222,7 @@ func TestC13Rollback(t *testing.T) {
 				t.Fatalf("RollbackPoints on a copy: %v (%d points, original %d)", err, len(cpts), len(pts))
 			}
 			target := cpts[ti]
-			if err := scorch.Rollback(cstore, target); err != nil {
+			if err := Guard("C13 Rollback", func() error { return scorch.Rollback(cstore, target) }); err != nil {
 				t.Fatalf("Rollback to point %d (seq %d): %v (%s)", ti, seqs[ti], err, desc())
 			}
 			after, err := scorch.RollbackPoints(cstore)
@@ -198,11 +234,21 @@ func TestC13Rollback(t *testing.T) {
 					t.Fatalf("after rollback to epoch %d a newer epoch %d is still listed (%s)", rollbackEpoch(target), rollbackEpoch(p), desc())
 				}
 			}
-			ridx, err := cfg.Reopen(cp)
+			type opened struct {
+				idx bleve.Index
+				err error
+			}
+			o1 := Guard("C13 open after rollback", func() opened { i, e := cfg.Reopen(cp); return opened{i, e} })
+			ridx, err := o1.idx, o1.err
 			if err != nil {
 				t.Fatalf("open after rollback to point %d (seq %d): %v (%s)", ti, seqs[ti], err, desc())
 			}
-			obs, err := Observe(ridx, DocIDs, []string{"seq"})
+			type observed struct {
+				o   *Observed
+				err error
+			}
+			ob := Guard("C13 reading after rollback", func() observed { o, e := Observe(ridx, DocIDs, []string{"seq"}); return observed{o, e} })
+			obs, err := ob.o, ob.err
 			if err != nil {
 				ridx.Close()
 				t.Fatalf("reading after rollback: %v", err)
@@ -213,7 +259,7 @@ func TestC13Rollback(t *testing.T) {
 				t.Fatalf("after rollback to point %d (seq %d of %d): %s (%s)", ti, seqs[ti], len(batches), d, desc())
 			}
 			for i, ops := range extra {
-				if err := c03ApplyBatch(ridx, 1000+i, ops, false); err != nil {
+				if err := Guard("C13 write after rollback", func() error { return c03ApplyBatch(ridx, 1000+i, ops, false) }); err != nil {
 					ridx.Close()
 					t.Fatalf("write after rollback: %v", err)
 				}
@@ -222,9 +268,9 @@ func TestC13Rollback(t *testing.T) {
 			}
 			if err := WaitPersisted(ridx, 30*time.Second); err != nil {
 				ridx.Close()
-				t.Fatalf("%v", err)
+				t.Fatalf("after rollback to seq %d and two more batches: %v (%s)", seqs[ti], err, desc())
 			}
-			if err := ridx.Close(); err != nil {
+			if err := Guard("C13 close after rollback", func() error { return ridx.Close() }); err != nil {
 				t.Fatalf("close after rollback: %v", err)
 			}
 			ridx, err = cfg.Reopen(cp)
@@ -256,6 +302,9 @@ func TestC13Rollback(t *testing.T) {
 			}
 			if memMerges > 0 {
 				cl = append(cl, "in-memory-merges")
+			}
+			if reopens > 0 {
+				cl = append(cl, "reopened-mid-history")
 			}
 			canon := map[string]interface{}{"cfg": cfg, "batches": batches, "hist": hist, "target": ti}
 			smp := map[string]interface{}{"cfg": cfg, "history": hist, "points_seq": seqs, "target_index": ti}
